@@ -15,9 +15,19 @@ for mid in sorted(cat):
         conf = "yes" if "confirmed" in m.get("confirmation", "") and "NOT" not in m.get("confirmation", "") else "?"
     else:
         caught, own, conf = "(not recorded)", "?", "?"
-    first = "missed / inconclusive at first" if "history" in ent else "caught at first screening"
+    h = ent.get("history", "")
+    if not h:
+        first = "own check reported it"
+    elif "NOT reported" in h:
+        first = "reported by no check (known gap)"
+    elif "missed by every check" in h or "INCONCLUSIVE" in h:
+        first = "no check (or only inconclusive) at first; closed"
+    elif "missed by C" in h or "but not by" in h or "(before C" in h:
+        first = "own check missed it at first; closed"
+    else:
+        first = "neighbouring check only (by design)"
     rows.append((mid, ent["breaks"].split(":")[0][:110], ent["needs"][:110], conf, caught, own, first))
 print("| id | clause broken | needs | confirmed | quick checks that report it (applied to /repo) | own check | first screening |")
 print("|---|---|---|---|---|---|---|")
 for r in rows:
-    print("| " + " | ".join(r) + " |")
+    print("| " + " | ".join(c.replace("|", "/") for c in r) + " |")
